@@ -464,6 +464,31 @@ func c17Gen(rng *rand.Rand, tier string) []core.Spec {
 			}
 		}
 	}
+	// client side: the server sends "101 response + frames"; every split of that byte string across two transport reads
+	ncl := 8
+	if tier == "thorough" {
+		ncl = 60
+	}
+	for i := 0; i < ncl; i++ {
+		negotiated := rng.Intn(4) == 0
+		frames, msgs := genConformantStream(rng, false, negotiated, 1+rng.Intn(3), 100, rng.Intn(4) == 0, 15)
+		stream, _ := encodeAll(frames)
+		if len(stream) > 250 {
+			continue
+		}
+		respLen := 129
+		if negotiated {
+			respLen += 103
+		}
+		for k := 0; k <= respLen+len(stream); k++ {
+			sp := &ReaderSpec{Prop: 17, Server: false, Negotiated: negotiated, RBuf: core.Pick(rng, []int{0, 125, 256, 4096}), Chunks: []B{B(stream)},
+				Fault: 0, Cmp: true, Drains: true, ViaDial: true, DialSplit: k, Ops: drainOps(len(msgs) + 2), Note: "client"}
+			if len(stream) == 0 {
+				sp.Chunks = nil
+			}
+			out = append(out, sp)
+		}
+	}
 	return out
 }
 
